@@ -45,12 +45,32 @@ getBestAlignment = FunctionSpec(
     ensures=_best_ensures, serves=('C05', 'C07'),
     note="the candidate of maximal confidence (None for an empty candidate list)")
 
+def _align_ensures(C, res):
+    if not (C.has('F') and C.F.has('bestPrimaryCorrelationPeaks')):
+        return []
+    Fv = C.F
+    seeds, sec, cand = Fv.bestPrimaryCorrelationPeaks, Fv.secondaryCorrelations, Fv.rowsWithMessages
+    cl = [('every_selected_seed_is_refined_and_aligned_into_one_candidate', z3.And(sec.len == seeds.len, cand.len == seeds.len)),
+          ('at_most_peaksCount_seeds', seeds.len <= C.self.peaksSelector.count),
+          ('no_record_exactly_when_no_seed_was_selected', res.none == (seeds.len == 0))]
+    if Fv.has('alignmentResultRows'):
+        rows = Fv.alignmentResultRows
+        k = z3.Int('alk')
+        cl += [('one_candidate_row_per_seed', rows.len == seeds.len),
+               ('the_result_is_a_candidate_of_maximal_confidence', z3.And(
+                   forall(k, z3.Implies(rng(0, k, rows.len), res.val.confidence >= rows[k].confidence), [rows.raw(k).t]),
+                   z3.Exists([k], z3.And(rng(0, k, rows.len), res.val.ref == rows.raw(k).t))))]
+    return cl
+
+
 align = FunctionSpec(
     file=F, qualname='_WorkflowCoordinator.__align', params=dict(self=WC, referenceMaps=LIST(OMAP), queryMap=OMAP), returns=OPT(ROW),
     requires=lambda C: [('peak_count_nonnegative', C.self.peaksSelector.count >= 0)],
-    ensures=lambda C, res: [],
+    ensures=lambda C, res: _align_ensures(C, res),
     serves=('C07', 'C05'),
-    note="exception-freedom of the per-query glue: in particular the unpacking of zip(*rows) needs at least one candidate row",
+    note="exception-freedom of the per-query glue (in particular the unpacking of zip(*rows) needs at least one candidate row); every selected seed - at most "
+         "peaksCount, the highest-scoring ones - is refined and aligned into exactly one candidate, and the result is a candidate of maximal confidence (None "
+         "exactly when no seed was selected)",
 )
 
 SPECS = [getPrimaryCorrelations, getSecondaryCorrelation, getAlignmentRow, dispatch, getBestAlignment, align]
